@@ -145,6 +145,14 @@ Definition compressBegin (c : cctx) (po : option prefs) (dk : dictkind) : res * 
   | UsingCDict d => compressBegin_internal c None (Some (createCDict d)) po
   end.
 
+(* the preferences LZ4F_compressFrame_usingCDict passes to compressBegin: content size corrected,
+   block size reduced to fit, autoFlush forced, a single block made independent *)
+Definition compressFrame_prefs (po : option prefs) (srcSize : Z) : prefs :=
+  let p0 := match po with Some p => p | None => prefs_null end in
+  let p1 := if negb (p_contentSize p0 =? 0) then set_contentSize p0 srcSize else p0 in
+  let p2 := set_autoFlush (set_bsid p1 (optimalBSID (p_bsid p1) srcSize)) 1 in
+  if srcSize <=? getBlockSize (p_bsid p2) then set_blockMode p2 FC_blockIndependent else p2.
+
 Section WithBlockCompressor.
   Variable blk : nat -> list byte -> list byte -> option (list byte).
 
@@ -254,10 +262,7 @@ Section WithBlockCompressor.
   (* LZ4F_compressFrame_usingCDict (cdict = content of the CDict, if any) *)
   Definition compressFrame_usingCDict (c : cctx) (src : list byte) (cdict : option (list byte))
              (po : option prefs) : res * cctx :=
-    let p0 := match po with Some p => p | None => prefs_null end in
-    let p1 := if negb (p_contentSize p0 =? 0) then set_contentSize p0 (len src) else p0 in
-    let p2 := set_autoFlush (set_bsid p1 (optimalBSID (p_bsid p1) (len src))) 1 in
-    let p3 := if len src <=? getBlockSize (p_bsid p2) then set_blockMode p2 FC_blockIndependent else p2 in
+    let p3 := compressFrame_prefs po (len src) in
     match compressBegin_internal c None cdict (Some p3) with
     | (Out hdr, c1) =>
       match compressUpdate c1 src with
